@@ -72,7 +72,7 @@ def gen_history(r, tier, forced=None):
         K = r.randint(1, 6)
     init = "uniform"
     steps = []
-    mode = r.choice(["mixed", "mixed", "clean", "nofreeze", "skippy", "epochs", "net-nothing"])
+    mode = r.choice(["mixed", "mixed", "clean", "nofreeze", "skippy", "epochs", "net-nothing", "midstep"])
     for k in range(K):
         cmd = []
         if mode == "skippy":
@@ -91,7 +91,24 @@ def gen_history(r, tier, forced=None):
         style = r.choice(LIK_STYLES)
         rst = 1 if (mode == "epochs" and r.random() < 0.2) else 0
         shift = r.choice([1.0, 1.0, 2.0, -0.5, 0.25 * (k + 1)])          # time-varying prediction
-        steps.append((cmd, fr, va, gen_lik(r, style, n), style, rst, shift))
+        st = (cmd, fr, va, gen_lik(r, style, n), style, rst, shift)
+        if mode == "midstep":
+            # skip commands arriving DURING the step (asynchronous command, atomic flags): between the prediction's and the
+            # correction's read of their flags (mid), and after the correction's read (late: during the likelihood evaluation)
+            c = r.random()
+            mid = [r.randint(1, 7) for _ in range(r.randint(1, 2))] if c < 0.35 else []
+            late = [r.choice([3, 3, 4, 5, 6, 1, 2, 7])] if (c > 0.25 and c < 0.8) else []
+            st = (cmd if r.random() < 0.3 else []) + ([7] if r.random() < 0.1 else []), fr, va, st[3], style, rst, shift, mid, late
+        steps.append(st)
+    if forced == "late-corOn":
+        # the C06-r4-1 interleaving: skip("correction", true) lands while the likelihood is being evaluated (the correction has
+        # read its flag already): this step re-weights AND normalises; the following ones hand the weights on
+        n, K = r.randint(2, 12), r.randint(2, 5)
+        kk = r.randrange(K - 1)
+        steps = [([], 1, 1, gen_lik(r, "random", n), "random", 0, 1.0, [], ([3] if q == kk else [4] if q == kk + 2 else [])) for q in range(K)]
+    if forced == "mid-corOn":
+        n, K = r.randint(2, 12), r.randint(2, 4)
+        steps = [([], 1, 1, gen_lik(r, "random", n), "random", 0, 1.0, r.choice([[3], [5], [1], [3, 4], [5, 2]]) if q % 2 == 0 else r.choice([[4], [6], [2]]), []) for q in range(K)]
     if forced == "n3-onehot":
         n, K = 3, r.randint(1, 4)
         steps = [([], 1, 1, [1.0, 0.0, 0.0][::r.choice([1, -1])], "onehot", 0, 1.0)] + \
@@ -154,6 +171,59 @@ def gen_history(r, tier, forced=None):
     return (seed, n, lin, circ, inits, None, steps, prior, ratio), meta
 
 
+def special_history(r, kind, n, i=0, j=0, prior=0, ratio=0.0):
+    """deterministically enumerated histories (every run):
+    chunk    N at a boundary of blocked accumulation (multiples of 256 up to 4096, +-1): log_sum_exp / neff / the cumulative sums
+             of the resampler over long vectors; the mass of the last block matters
+    tie-max  the largest corrected log-weight is attained exactly (bitwise) at positions i and j (every pair for N = 2..6; block
+             boundaries for long vectors); a second step with the prediction skipped keeps the duplicates of one parent tied"""
+    lin, circ = r.choice([(1, 0), (2, 1), (0, 1), (3, 0)])
+    w0 = [-math.log(n)] * n
+    x0 = [1000.0 * (q + 1) for q in range(n)]
+    if kind == "chunk":
+        last = range(max(0, ((n - 1) // 256) * 256), n)
+        l1 = [r.uniform(0.2, 1.0) for _ in range(n)]
+        l2 = [r.uniform(0, 1e-3) for _ in range(n)]
+        for q in last:
+            l2[q] = r.uniform(0.5, 1.0)                         # the weight sits in the last block: resampling is triggered
+        l3 = [r.random() for _ in range(n)]
+        steps = [([], 1, 1, l1, "random", 0, 1.0), ([], 1, 1, l2, "lastblock", 0, 1.0), (r.choice([[], [1], [3]]), r.choice([0, 1]), 1, l3, "random", 0, 2.0)]
+    else:
+        vals = [r.uniform(0.05, 0.6) for _ in range(n)]
+        top = r.choice([1.0, 0.75, 2.5])
+        if n <= 6:
+            l1 = [top if q in (i, j) else vals[q] for q in range(n)]
+        else:
+            l1 = [r.uniform(0, 1e-4) for _ in range(n)]
+            l1[i] = l1[j] = top
+        steps = [([], 1, 1, l1, "tie-max", 0, 1.0), ([1], 1, 1, [1.0] * n, "ones", 0, 1.0), ([2], r.choice([0, 1]), 1, l1[::-1], "tie-max", 0, 1.0)]
+    seed = r.randrange(1, 2 ** 32)
+    meta = {"n": n, "lin": lin, "circ": circ, "K": len(steps), "mode": kind, "init": "uniform", "seed": seed, "prior": prior}
+    return (seed, n, lin, circ, [(w0, x0)], None, steps, prior, ratio), meta
+
+
+def special_histories(r, tier):
+    out = []
+    mults = list(range(256, 4096 + 1, 256))
+    for n in mults:
+        out.append(special_history(r, "chunk", n))
+    for n0 in r.sample(mults, 3) + [256]:
+        for n in (n0 - 1, n0 + 1):
+            out.append(special_history(r, "chunk", n))
+    for n, ratio in [(512, 0.5), (1280, 0.2), (4096, 0.25)]:
+        out.append(special_history(r, "chunk", n, prior=1, ratio=ratio))
+    for n in range(2, 7):
+        for i in range(n):
+            for j in range(i + 1, n):
+                out.append(special_history(r, "tie-max", n, i, j, prior=(1 if (i + j + n) % 5 == 0 else 0), ratio=0.25))
+    for n in [256, 512, 1000, 1025]:
+        for i, j in [(0, n - 1), (1, n - 1), (255, 256), (n - 2, n - 1), (0, 1)]:
+            if j >= n:
+                continue
+            out.append(special_history(r, "tie-max", n, i, j))
+    return out
+
+
 def draw_count(case):
     """the resampler draws from uniform(0, 1/m): m = N, or N - floor(N * ratio) for the prior-mixing resampler"""
     n, prior, ratio = case[1], case[7], case[8]
@@ -164,14 +234,22 @@ def make_lines(case, us):
     seed, n, lin, circ, inits, _, steps, prior, ratio = case
     body = "%d %d %d %d %d %d %s %s %d %s" % (n, lin, circ, len(steps), len(us), prior, hexd(ratio), " ".join(us), len(inits),
                                          " ".join(" ".join(hexd(x) for x in w) + " " + " ".join(hexd(x) for x in x) for w, x in inits))
-    for cmd, fr, va, lik, _, rst, shift in steps:
-        body += " %d %s%d %d %d %s %s" % (len(cmd), "".join("%d " % c for c in cmd), fr, va, rst, hexd(shift), " ".join(hexd(x) for x in lik))
-    return "sis %d %s" % (seed, body), "sis " + body
+    ext = any(len(st) > 7 for st in steps)
+    for st in steps:
+        cmd, fr, va, lik, _, rst, shift = st[:7]
+        mid, late = (st[7], st[8]) if len(st) > 7 else ([], [])
+        cs = "%d %s" % (len(cmd), "".join("%d " % c for c in cmd))
+        if ext:
+            cs += "%d %s%d %s" % (len(mid), "".join("%d " % c for c in mid), len(late), "".join("%d " % c for c in late))
+        body += " %s%d %d %d %s %s" % (cs, fr, va, rst, hexd(shift), " ".join(hexd(x) for x in lik))
+    op = "sis2" if ext else "sis"
+    return "%s %d %s" % (op, seed, body), op + " " + body
 
 
 def parse_line(line):
     """corpus / replay line (a harness line) -> case tuple"""
     t = line.split()
+    ext = t[0] == "sis2"
     seed, n, lin, circ, K, D, prior = [int(x) for x in t[1:8]]
     ratio = unhex(t[8])
     p = 9 + D
@@ -185,8 +263,13 @@ def parse_line(line):
     for _ in range(K):
         nc = int(t[p]); p += 1
         cmd = [int(x) for x in t[p:p + nc]]; p += nc
+        extra = ()
+        if ext:
+            nm = int(t[p]); mid = [int(x) for x in t[p + 1:p + 1 + nm]]; p += 1 + nm
+            nl = int(t[p]); late = [int(x) for x in t[p + 1:p + 1 + nl]]; p += 1 + nl
+            extra = (mid, late)
         fr, va, rst = int(t[p]), int(t[p + 1]), int(t[p + 2]); shift = unhex(t[p + 3]); p += 4
-        steps.append((cmd, fr, va, [unhex(x) for x in t[p:p + n]], "corpus", rst, shift)); p += n
+        steps.append((cmd, fr, va, [unhex(x) for x in t[p:p + n]], "corpus", rst, shift) + extra); p += n
     return (seed, n, lin, circ, inits, None, steps, prior, ratio), {"n": n, "lin": lin, "circ": circ, "K": K, "mode": "corpus", "init": "corpus", "seed": seed, "prior": prior}
 
 
@@ -209,6 +292,8 @@ def parse_blocks(tokens, with_x):
         if not with_x:
             assert tokens[p] == "T"
             b["stepno"] = int(tokens[p + 1]); p += 2
+            if p < len(tokens) and tokens[p] == "F":
+                b["skipP"], b["skipC"], b["accepted"] = int(tokens[p + 1]), int(tokens[p + 2]), int(tokens[p + 3]); p += 4
         if with_x:
             assert tokens[p] == "X"
             (b["srows"], b["mrows"], b["mcols"], b["crows"], b["covcols"], b["dim"], b["quat"], b["rows_ok"], b["u1ok"]) = [int(x) for x in tokens[p + 1:p + 10]]
@@ -217,7 +302,7 @@ def parse_blocks(tokens, with_x):
             for key in ("cw", "cs", "pw", "ps"):
                 k = int(tokens[p]); p += 1
                 b[key] = [unhex(x) for x in tokens[p:p + k]]; p += k
-            b["stepno"], b["log_calls"] = int(tokens[p]), int(tokens[p + 1]); p += 2
+            b["stepno"], b["log_calls"], b["skipP"], b["refused_ok"] = [int(x) for x in tokens[p:p + 4]]; p += 4
         out.append(b)
     return out, p
 
@@ -268,15 +353,32 @@ def check_history(case, meta, h, d, stats, hist):
     prev_norm = abs(lse(w0)) <= 1e-10         # are the weights handed to this step normalised?
     skipP = skipC = False
     live = mblocks is not None
-    for k, (cmds, fr, va, lik, style, rst, shift) in enumerate(steps):
-        b = blocks[k]
-        for cmd in cmds:
+    flagP = flagC = False                     # the two flags as the commands issued so far leave them
+
+    def apply(cs, fp, fc):
+        for cmd in cs:
             if cmd in (1, 2):
-                skipP = (cmd == 1)
+                fp = (cmd == 1)
             elif cmd in (3, 4):
-                skipC = (cmd == 3)
+                fc = (cmd == 3)
             elif cmd in (5, 6):
-                skipP = skipC = (cmd == 5)
+                fp = fc = (cmd == 5)
+        return fp, fc
+    for k, st in enumerate(steps):
+        cmds, fr, va, lik, style, rst, shift = st[:7]
+        mid, late = (st[7], st[8]) if len(st) > 7 else ([], [])
+        b = blocks[k]
+        # the prediction obeys the flags after the commands issued before the step; the correction those after the commands that
+        # arrived before its own read (`mid`: issued from inside freeze_measurements()); `late` commands act on later steps only
+        flagP, flagC = apply(cmds, flagP, flagC)
+        skipP = flagP
+        flagP, flagC = apply(mid, flagP, flagC)
+        skipC = flagC
+        flagP, flagC = apply(late, flagP, flagC)
+        if mid or late:
+            stats["steps_with_commands_arriving_mid_step"] = stats.get("steps_with_commands_arriving_mid_step", 0) + 1
+            if fr and va and not skipC and 3 in late:
+                stats["correction_skip_arriving_during_likelihood_evaluation"] = stats.get("correction_skip_arriving_during_likelihood_evaluation", 0) + 1
         if len(cmds) > 1:
             stats["steps_after_several_commands"] = stats.get("steps_after_several_commands", 0) + 1
         where = "step %d of %d (epoch %d, step %d in it; N=%d, lin=%d, circ=%d)" % (k, K, epoch, local, n, lin, circ)
@@ -371,6 +473,16 @@ def check_history(case, meta, h, d, stats, hist):
                 probs.append(("corr", "unused-measurement", "%s: correction skipped / likelihood invalid: weights are not the predicted ones, normalised" % where))
         if not (bits_equal(pw, exp_pw) and bits_equal(ps, exp_ps)):
             probs.append(("corr", "predicted-set", "%s: predicted set is not what the prediction step produces from the previous corrected set" % where))
+        if b["skipP"] != (1 if flagP else 0):
+            probs.append(("corr", "skip-flag", "%s: PFPrediction::is_skipping() = %d after the step, commands issued so far leave it at %d" % (where, b["skipP"], flagP)))
+        if not b["refused_ok"]:
+            probs.append(("corr", "skip-unknown-accepted", "%s: ParticleFilter::skip accepted a command it does not know" % where))
+        if live and "skipP" in mblocks[k]:
+            if (mblocks[k]["skipP"], mblocks[k]["skipC"]) != (1 if flagP else 0, 1 if flagC else 0) or mblocks[k]["skipP"] != b["skipP"]:
+                probs.append(("corr", "skip-flag-model", "%s: model flags after the step (%d, %d), commands issued so far (%d, %d), implementation prediction flag %d" % (where, mblocks[k]["skipP"], mblocks[k]["skipC"], flagP, flagC, b["skipP"])))
+            acc = 0 if 7 in (list(cmds) + list(mid) + list(late)) else 1
+            if mblocks[k]["accepted"] != acc:
+                probs.append(("corr", "skip-accept-model", "%s: model accepts an unknown command" % where))
         if not (b["pn"] == n and b["plin"] == lin and b["pcirc"] == circ and b["pcols"] == n):
             probs.append(("corr", "predicted-shape", "%s: predicted set has components=%d layout (%d, %d)" % (where, b["pn"], b["plin"], b["pcirc"])))
         # ------------------------------------------------ correspondence with the model
@@ -652,8 +764,10 @@ def run(ctx):
         for ln in corpus.read_text().split("\n"):
             if ln.strip() and not ln.startswith("#"):
                 cases.append(parse_line(ln.strip()))
-    for forced in [] if replay_line else ["n3-onehot"] * 4 + ["n3-init-onehot"] * 2 + ["n6-twohot"] * 2 + ["init-peaked"] * 4 + ["unnorm-init"] * ctx.n(8, 60) + ["circ-resample"] * ctx.n(12, 100) + ["circ-resample-prior"] * ctx.n(8, 60):
+    for forced in [] if replay_line else ["late-corOn"] * 6 + ["mid-corOn"] * 6 + ["n3-onehot"] * 4 + ["n3-init-onehot"] * 2 + ["n6-twohot"] * 2 + ["init-peaked"] * 4 + ["unnorm-init"] * ctx.n(8, 60) + ["circ-resample"] * ctx.n(12, 100) + ["circ-resample-prior"] * ctx.n(8, 60):
         cases.append(gen_history(r, ctx.tier, forced))
+    if not replay_line:
+        cases += special_histories(ctx.gen("sis-special").r, ctx.tier)
     cases += [gen_history(r, ctx.tier) for _ in range(n_hist)]
     # the draws of the resampler's generator (twin generator, same seed, same distribution)
     uouts, _ = vlib.run_harness(binary, ["u1 %d %d %d" % (c[0], draw_count(c), len(c[6])) for c, _ in cases])
@@ -678,7 +792,7 @@ def run(ctx):
         steps_total += meta["K"]
         try:
             probs = check_history(case, meta, h, d, stats, hist)
-        except (IndexError, ValueError, AssertionError, KeyError) as ex:
+        except (IndexError, ValueError, AssertionError, KeyError, OverflowError, ZeroDivisionError, TypeError) as ex:
             probs = [("prop", "malformed-output", "harness output not parseable (%r): %s" % (ex, h[:160]))]
         for kind, key2, what in probs:
             (corr_bad if kind == "corr" else prop_bad).append((key2, what, hl, h))
@@ -706,8 +820,11 @@ def run(ctx):
         "rule": "scripted histories of the real SIS filter thread (several skip commands per step incl. sequences netting to nothing, reset -> re-initialisation epochs with a time-varying initialiser, time-varying prediction shift, un-normalised initial weights with failing acquisition): 1..%d steps, N in 1..50, layouts lin 0..3 / circ 0..2, per step a skip command "
                 "(prediction/correction/all on/off), acquisition success/failure, valid/invalid likelihood, likelihood vectors (ones, random, peaked, exact zeros, "
                 "all zero, 1e-300, one-hot, two-hot, 1e300); forced boundary histories (N=3 one-hot: neff == N/3 exactly; resampling with circular components); "
+                "enumerated in every run: N at every multiple of 256 up to 4096 (and +-1), the largest corrected log-weight attained exactly at every pair of positions (N = 2..6) and at block boundaries of long vectors; "
                 "non-trivial = N > 1 and more than one step; distinct = distinct input lines" % (30 if ctx.quick() else 60),
         "samples": ([hlines[0][:400], hlines[len(hlines) // 2][:400]] if hlines else [str(glik_replay or pipe_replay)[:400]]),
+        "chunk_boundary_particle_counts": sorted(set(m["n"] for c, m in cases if m["mode"] == "chunk")),
+        "tie_at_maximum_histories": sum(1 for c, m in cases if m["mode"] == "tie-max"),
         "steps_executed": steps_total, "step_class_histogram": hist, "history_mode_histogram": modes,
         "branch_and_numeric_counters": stats, "steps_with_resampling": resampled_circ,
         "traces_validated_against_impl": len(cases),
